@@ -6,6 +6,7 @@ import (
 	"encoding/hex"
 	"fmt"
 	"math/big"
+	"runtime"
 	"testing"
 
 	"github.com/bytemare/secp256k1"
@@ -38,7 +39,7 @@ const poolSize = 4
 
 var (
 	elemOps = []string{"e.base", "e.identity", "e.set", "e.copy", "e.add", "e.add", "e.sub", "e.sub", "e.double", "e.negate", "e.mul", "e.addnil", "e.subnil",
-		"e.mulnil", "e.decode", "e.decodeunc", "e.decodebad", "e.coords", "e.h2g", "e.e2g", "e.copymut", "e.repr", "e.repr"}
+		"e.mulnil", "e.decode", "e.decodeunc", "e.decodebad", "e.coords", "e.h2g", "e.e2g", "e.copymut", "e.repr", "e.repr", "gc"}
 	scalOps = []string{"s.zero", "s.one", "s.minusone", "s.setu64", "s.set", "s.setnil", "s.copy", "s.add", "s.sub", "s.mul", "s.square", "s.invert", "s.pow",
 		"s.decode", "s.decodebad", "s.h2s", "s.random", "s.cselect", "s.addnil", "s.mulnil", "s.copymut"}
 )
@@ -180,6 +181,10 @@ func runC10(c caseC10, o *gen.Obs) error {
 		case "e.copymut": // mutate a copy: the source must not change
 			cp := st.E[x].Copy()
 			cp.Double().Add(secp256k1.Base()).Negate()
+		case "gc":
+			if r == 0 { // (a quarter of the gc actions: a collection costs about a millisecond)
+				runtime.GC() // pools and caches are emptied; nothing observable may change
+			}
 		case "e.repr":
 			// the group element stays the same, its internal representation changes (re-scaling and coordinate
 			// targets need the white-box build; the API recipes work everywhere)
